@@ -43,6 +43,10 @@ def _mk_frames():
     # DF17 with a flipped bit must never be returned; DF18 / DF16 / DF0 are distractors (may or may not be reported)
     bad = int(fr["DF17a"], 16) ^ (1 << 40)
     fr["DF17badcrc"] = "%028X" % bad
+    v = int(fr["DF17a"], 16)
+    fr["DF17bad_parity"] = "%028X" % (v ^ (1 << 7))                    # one flipped bit inside the parity field
+    fr["DF17bad_two"] = "%028X" % (v ^ (1 << 30) ^ (1 << 61))           # two flips in the ME field
+    fr["DF17bad_burst"] = "%028X" % (v ^ (0xC3A5F1 << 28))              # a 24-bit burst inside the ME field
     fr["DF18"] = F.es(F.me(11, rest=0x123456789AB), 0x406B90, 5, 18)
     fr["DF16"] = F.long_ap(16, 0x0001838, 0x12345678, 0x406B90)
     fr["DF0"] = F.short_ap(0, 0x0001838, 0x406B90)
@@ -50,7 +54,8 @@ def _mk_frames():
 
 
 FRAMES = _mk_frames()
-ACCEPT = [k for k in FRAMES if k not in ("DF17badcrc", "DF18", "DF16", "DF0")]
+BAD17 = ("DF17badcrc", "DF17bad_parity", "DF17bad_two", "DF17bad_burst")
+ACCEPT = [k for k in FRAMES if k not in BAD17 + ("DF18", "DF16", "DF0")]
 AMPS = [0.3, 0.5, 1.0, 1.4]
 NOISE_DB = [None, -40, -20, -14.5, -13, -10.5, -10]
 SHAPES = ["const", "alt", "lcg"]
@@ -84,7 +89,7 @@ def build(spec):
 
 
 def new_reader():
-    r = object.__new__(RtlReader)
+    r = RtlReader()          # the real constructor (the SDR device is a stand-in module, see engine.loader.fake_rtlsdr)
     r.signal_buffer = []
     r.noise_floor = 1e6
     r.debug = False
@@ -221,6 +226,19 @@ def gen(ctx):
     depth = 3 if ctx.thorough else 2
     for combo in itertools.product(seg, repeat=2):
         hs.append(list(combo))
+    # a corrupted squitter after the reader has heard the same transponder (all-call reply DF11, good DF17, DF4/20 replies):
+    # in one buffer and in the next one; whatever the reader remembers about an address must not soften the parity check
+    for bad in BAD17:
+        for first in (["DF11"], ["DF17a"], ["DF11", "DF17a"], ["DF20", "DF4"]):
+            for a in (0.5, 1.4):
+                for db in (None, -13):
+                    k += 1
+                    one = {"frames": first + [bad], "offset": 5, "amps": [a] * (len(first) + 1), "db": db, "shape": SHAPES[k % 3], "gap": "L", "nseed": ctx.seed + 3}
+                    hs.append([one])
+                    b1 = {"frames": first, "offset": 5, "amps": [a] * len(first), "db": db, "shape": SHAPES[k % 3], "gap": "L", "nseed": ctx.seed + 3}
+                    b2 = {"frames": [bad, "DF17a"], "offset": 9, "amps": [a, a], "db": db, "shape": SHAPES[k % 3], "gap": "3L", "nseed": ctx.seed + 4}
+                    hs.append([b1, b2])
+                    hs.append([b1, b1, b2])
     # three (thorough: also four) buffers through one reader over a reduced alphabet: anything that looks at more than
     # the previous buffer (a window of recent noise estimates, a counter) needs at least three calls to show
     seg3 = [s_ for s_ in seg if s_["frames"][0] in ("DF17a", "DF4") and s_["db"] in (None, -10)]
